@@ -18,6 +18,7 @@ from vlib.build import BuildError
 from tools.gen import bytecode as gen_bytecode
 from tools.gen import marsh as gen_marsh
 from tools.gen import vmaccess as gen_vm
+from tools.gen import pegaccess as gen_peg
 from tools.gen.csrc import ExtractError
 
 from vlib import build as vbuild
@@ -25,7 +26,9 @@ from vlib import build as vbuild
 THEOREMS = ["JanetModel.Props.C10." + t for t in (
     "tables_consistent", "no_bad_rows", "verify_sound", "verify_entry", "fiber_image_wf_of_all_checks", "fiber_image_wf_partial",
     "function_image_wf_of_all_checks", "function_image_wf_partial", "env_untrusted_checked_of_all_checks",
-    "witness_fiber_frame0", "witness_function_env_count", "witness_def_env_index")] + ["JanetModel.Bytecode.verify_sound_generic"]
+    "witness_fiber_frame0", "witness_function_env_count", "witness_def_env_index", "peg_verify_sound_of_consistent")] + [
+    "JanetModel.Bytecode.verify_sound_generic", "JanetModel.PegVerify.peg_verify_sound_generic"]
+PEG_OBLIGATIONS = ["JanetModel.PegVerify.Obligations." + t for t in ("peg_tables_consistent", "peg_verify_sound")]
 IMAGE_OBLIGATIONS = ["JanetModel.Unmarsh.Obligations." + t for t in ("image_checks_present", "fiber_image_wf", "function_image_wf", "env_untrusted_checked")]
 # witness image -> the check (Gen/ImageChecks.lean field) whose presence must reject it
 WITNESS_CHECK = {"fiber_frame0_resumable": "frame0", "function_env_count_mismatch": "fnEnvCount", "def_environment_negative": "defEnvIndex"}
@@ -50,12 +53,15 @@ def _imagegen():
 
 # ------------------------------------------------------------------------------------------------ running batches
 ALLOC_WRAPPERS = {"janet_gcalloc", "janet_abstract_begin", "janet_abstract", "janet_abstract_threaded", "janet_abstract_begin_threaded",
-                  "janet_unmarshal_abstract", "janet_unmarshal_abstract_threaded", "janet_smalloc", "janet_scalloc", "janet_srealloc"}
+                  "janet_unmarshal_abstract", "janet_unmarshal_abstract_threaded", "janet_smalloc", "janet_scalloc", "janet_srealloc",
+                  "janet_array_ensure", "janet_array_push", "janet_array_setcount", "janet_buffer_ensure", "janet_buffer_extra", "janet_buffer_push_u8",
+                  "janet_buffer_push_bytes", "janet_buffer_setcount", "pushcap", "janet_to_string_b"}
 # allocation sites whose size comes straight from the image and is not bounded by the input length on the pinned tree
 # (funcdef section lengths, funcenv length, fiber stack size, peg bytecode / constant counts): documented resource limit,
 # counted in the evidence, not reported.  An over-sized allocation anywhere else (array / tuple / string / table /
 # buffer lengths are bounded by MARSH_EOS "DOS checks") IS reported.
-UNBOUNDED_ALLOC_SITES = {"unmarshal_one_def@marsh.c", "unmarshal_one_fiber@marsh.c", "unmarshal_one_env@marsh.c", "peg_unmarshal@peg.c"}
+UNBOUNDED_ALLOC_SITES = {"unmarshal_one_def@marsh.c", "unmarshal_one_fiber@marsh.c", "unmarshal_one_env@marsh.c", "peg_unmarshal@peg.c",
+                         "peg_rule@peg.c"}   # a valid PEG may capture without bound
 
 
 def classify(rc, err):
@@ -167,7 +173,7 @@ def load_base(ctx, v):
     return base
 
 
-def gen_inputs(ctx, ig, base, ops, lb, quick):
+def gen_inputs(ctx, ig, base, ops, lb, quick, pegrows=None):
     """returns list of (kind, label, line)"""
     rng = ctx.rng.fork("inputs")
     enc = ig.Enc(lb)
@@ -237,6 +243,21 @@ def gen_inputs(ctx, ig, base, ops, lb, quick):
         except Exception:
             continue
         cases.append(("mfiber", "+".join(labels), "u " + img.hex(), mline))
+    # 4c. PEG images: valid programs built from the extracted rows, then structure-aware mutation (rule operands redirected
+    #     into the middle of other instructions / into literal payloads spelling an instruction, constant indices at the
+    #     bounds, missing / extra words, empty program); the model line (pegverify) travels with the case
+    if pegrows is not None:
+        n_pg = 5000 if quick else 80000
+        gad = pegrows.ops["RULE_CONSTANT"]
+        for i in range(n_pg):
+            try:
+                p = ig.gen_peg(rng, pegrows, gad)
+                words, offs = ig.layout_peg(p)
+                words, nc, lab = ig.mutate_peg_words(rng, p, words, offs)
+                img = ig.peg_image(lb, words, [rng.choice([1, 2, ("str", b"c")]) for _ in range(nc)], enc)
+            except Exception:
+                continue
+            cases.append(("peg", lab, "u " + img.hex(), "pegverify %d %s" % (nc, " ".join(str(w) for w in words))))
     # 5. NaN-boxed reals: every interesting payload through LB_REAL, alone and as constants / stack slots
     for hi in range(0, 256, 1 if not quick else 5):
         for tail in (b"\x00" * 6, b"\x01\x00\x00\x00\x00\x00", b"\xff" * 6, b"\x78\x56\x34\x12\x00\x00"):
@@ -297,7 +318,7 @@ def run(ctx):
         return ctx.finish("proof", {"evaluations": 0, "distinct_nontrivial": 0, "rule": "n/a", "samples": []})
     tree = ctx.build.tree
     # (A) regenerate
-    ops = lb = image_checks = None
+    ops = lb = image_checks = pegrows = None
     try:
         ctx.gen("Bytecode.lean", gen_bytecode.render(tree))
         opl, types, jint = gen_bytecode.extract(tree)
@@ -314,6 +335,9 @@ def run(ctx):
         ctx.gen("VmAccess.lean", gen_vm.render(tree))
         ctx.gen("ImageChecks.lean", gen_vm.render_image_checks(tree))
         image_checks = gen_vm.image_checks(tree)
+        ctx.gen("PegAccess.lean", gen_peg.render(tree))
+        pops, pv, pu, pglob = gen_peg.extract(tree)
+        pegrows = ig.PegRows(pops, pv, pu)
     except ExtractError as e:
         broken.append("translator: %s" % e)
         ctx.broken.append(broken[-1])
@@ -332,6 +356,8 @@ def run(ctx):
     broken += ctx.obligations("JanetModel.Props.C10", THEOREMS)
     img_broken = ctx.obligations("JanetModel.Unmarsh.Obligations", IMAGE_OBLIGATIONS)
     broken += img_broken
+    peg_broken = ctx.obligations("JanetModel.PegVerify.Obligations", PEG_OBLIGATIONS)
+    broken += peg_broken
     if not quick and not broken:
         ok, log = ctx.leanchecker("JanetModel.Props.C10")
         if not ok:
@@ -387,9 +413,29 @@ def run(ctx):
                 synth.append(("row-witness", name, "u " + ig.Enc(lb).val(("fn", dict(**{"def": d}, envs=[]))).hex()))
         broken.append("verify_sound: table row %s (opcode %d) is not consistent" % (name, opn))
 
+    # PEG verifier rows: name the RULE_* whose verifier row does not cover peg_rule, synthesise images for it
+    peg_bad = []
+    if exe and pegrows is not None:
+        r = ctx.model(["pegrows"], exe=exe)[0]
+        mm = re.search(r"bad=(.*)$", r)
+        peg_bad = [int(x) for x in (mm.group(1).split() if mm else [])]
+        gad = pegrows.ops["RULE_CONSTANT"]
+        for opn in peg_bad:
+            name = pegrows.name_of.get(opn, "op%d" % opn)
+            ctx.say("PEG verifier row of %s does not cover what peg_rule dereferences: synthesising witnesses" % name)
+            broken.append("peg_verify_sound: verifier row %s (opcode %d) is not consistent with peg_rule" % (name, opn))
+            for words, nc, lab in ig.peg_row_witness(pegrows, opn, gad):
+                synth.append(("peg-row-witness", "%s %s" % (name, lab), "u " + ig.peg_image(lb, words, [1] * nc, ig.Enc(lb)).hex(), "pegverify %d %s" % (nc, " ".join(str(w) for w in words))))
+        if "nonEmpty=false" in r:
+            broken.append("peg_verify_sound: peg_unmarshal accepts zero-length bytecode (entry point bytecode[0] does not exist)")
+            synth.append(("peg-row-witness", "empty-bytecode", "u " + ig.peg_image(lb, [], [], ig.Enc(lb)).hex(), "pegverify 0"))
+        for flag in ("exactEnd=false", "marksChecked=false"):
+            if flag in r:
+                broken.append("peg_verify_sound: global check missing in peg_unmarshal (%s)" % flag)
+
     # (E) direct oracle
     base = load_base(ctx, v)
-    cases = gen_inputs(ctx, ig, base, ops, lb, quick)
+    cases = gen_inputs(ctx, ig, base, ops, lb, quick, pegrows)
     wit = sorted(witness_images(ig, lb, ops).items())
     for name, b in wit:
         cases.insert(0, ("witness", name, "u " + b.hex()))
@@ -462,6 +508,24 @@ def run(ctx):
             broken.append("correspondence: acceptance predicted from Gen/ImageChecks differs from the implementation on %d images" % mstats["src_model_differs"])
             ctx.broken.append(broken[-1])
     ctx.say("fiber model correspondence: %s" % json.dumps(mstats))
+    # (D3) PEG verifier model (with the rows extracted from the current peg.c) vs the real peg_unmarshal
+    pg = [(i, c) for i, c in enumerate(cases) if c[0] in ("peg", "peg-row-witness") and c[3] is not None and outs[i] is not None]
+    pstats = {"compared": 0, "both_accept": 0, "both_reject": 0, "differ": 0}
+    if exe and pg:
+        mo = ctx.model([c[3] for _, c in pg], exe=exe)
+        pdiff = []
+        for (i, c), r in zip(pg, mo):
+            real = outs[i].startswith("acc")
+            pstats["compared"] += 1
+            if real == (r == "acc"):
+                pstats["both_accept" if real else "both_reject"] += 1
+            else:
+                pstats["differ"] += 1
+                pdiff.append({"mutation": c[1], "input": c[2], "model_line": c[3], "impl": outs[i], "model": r})
+        if pdiff:
+            broken.append("correspondence PEG verifier model / peg_unmarshal: %d differing, first %r" % (len(pdiff), pdiff[0]))
+            ctx.broken.append(broken[-1])
+    ctx.say("peg model correspondence: %s" % json.dumps(pstats))
     resource_exits = {}
     # triage crashes: group by signature, keep the shortest input per signature, confirm alone
     by_sig = {}
@@ -508,7 +572,8 @@ def run(ctx):
                 "function/fiber is then called with 6 argument vectors / resumed, cancelled, stepped, iterated, printed, hashed, compared, re-marshalled and collected",
         "samples": [c[2][:80] for c in cases[:3]] + [c[2][:80] for c in cases[len(cases) // 2:len(cases) // 2 + 2]],
         "generators": stats, "accepted": acc_total, "reject_classes": dict(sorted(rej_classes.items(), key=lambda kv: -kv[1])[:25]),
-        "crash_signatures": {k: v[3] for k, v in by_sig.items()}, "fiber_model_correspondence": mstats,
+        "crash_signatures": {k: v[3] for k, v in by_sig.items()}, "fiber_model_correspondence": mstats, "peg_model_correspondence": pstats,
+        "peg_bad_rows": [pegrows.name_of.get(o, o) for o in peg_bad] if pegrows is not None else None,
         "resource_exits_not_counted": resource_exits,
         "verify_correspondence_cases": len(vlines), "verify_correspondence_diffs": len(vdiffs), "verify_return_codes": vcodes,
         "image_checks_present": image_checks, "bad_table_rows": [ops.name_of.get(o, o) for o in bad_rows],
@@ -517,7 +582,7 @@ def run(ctx):
         "memory safety of the C code itself is ASan/UBSan-tested, not proved; the theorems are about the Lean models of janet_verify / image validation",
         "image validation is modelled on decoded header / frame records (byte-level totality of unmarshal is tested by truncation at every offset, not proved)",
         "tools/gen/vmaccess.py transcribes handler operand uses and the presence of each validation by anchored regexes (ExtractError when the shape changes)",
-        "PEG bytecode verifier: tested only (mutation of marshalled pegs under ASan), no peg_verify_sound theorem"])
+        "PEG: the theorem is about the model of the verifier loop in peg_unmarshal and the extracted operand uses of peg_rule; peg_rule's matching semantics is not modelled (C12)"])
 
 
 def replay(ctx, path):
